@@ -398,6 +398,38 @@ func checkC03(c *Ctx) {
 					n--
 					continue
 				}
+				// the connection may be placed into a deadline-forwarding wrapper that is returned with a nil error,
+				// but only after positive identification (obfs4: mark matched and handshake succeeded)
+				if st, isSt := ref.(*ssa.Store); isSt && st.Val == ssa.Value(connP) {
+					if fa, ok := st.Addr.(*ssa.FieldAddr); ok {
+						if al, ok := fa.X.(*ssa.Alloc); ok {
+							identified := guardedM(f, st, func(cnd string, pol bool) bool {
+								return !pol && strings.Contains(cnd, "findMarkMac(") && strings.HasPrefix(cnd, "(-1 == ")
+							})
+							onlyNil := true
+							for _, r2 := range *al.Referrers() {
+								if ld, ok := r2.(*ssa.UnOp); ok {
+									for _, r3 := range *ld.Referrers() {
+										if mi, ok := r3.(*ssa.MakeInterface); ok {
+											for _, r4 := range *mi.Referrers() {
+												if rt, ok := r4.(*ssa.Return); ok {
+													if cst, isC := rt.Results[2].(*ssa.Const); !isC || cst.Value != nil {
+														onlyNil = false
+													}
+												} else if _, isDbg := r4.(*ssa.DebugRef); !isDbg {
+													onlyNil = false
+												}
+											}
+										}
+									}
+								}
+							}
+							if identified && onlyNil {
+								continue
+							}
+						}
+					}
+				}
 				okAll = false
 				r.Bad("C03.1", fnName(f)+": connection parameter used by "+firstN(ref.String(), 60), ref.Pos(), fnName(f),
 					"a transport touches the client connection other than by wrapping it after identification: it may write, close or read before the transport has positively identified itself")
